@@ -14,7 +14,19 @@ TRUSTED_BASE = [
     'extraction: Require Extraction + ExtrOcamlBasic only (no Extract Constant / Extract Inductive of our own)',
     'ocaml/driver.ml and harness/*.py (hex I/O, oracle service backed by hashlib / PyNaCl / struct, comparison)',
     'CPython, PyNaCl/libsodium, hashlib, struct: not modelled, reached through the oracle interface',
+    'axioms: none declared by this development; the four float theorems of C10 depend, through Flocq 4.1.0 (IEEE754.Bits), '
+    'on the standard library axioms ClassicalDedekindReals.sig_not_dec, ClassicalDedekindReals.sig_forall_dec, '
+    'FunctionalExtensionality.functional_extensionality_dep, Classical_Prop.classic; every other theorem is closed under '
+    'the global context (see print_assumptions in this file)',
 ]
+
+
+# axioms DECLARED BY THE STANDARD LIBRARY that theorems of this development may depend on (only the float part of C10
+# does, through Flocq's use of the real numbers); any other axiom in a Print Assumptions output fails the audit
+STDLIB_AXIOMS = {
+    'ClassicalDedekindReals.sig_not_dec', 'ClassicalDedekindReals.sig_forall_dec',
+    'FunctionalExtensionality.functional_extensionality_dep', 'Classical_Prop.classic',
+}
 
 
 def sh(cmd, cwd=None, timeout=3600, env=None):
@@ -42,11 +54,12 @@ def ensure_build():
         # model binary
         binp = os.path.join(BUILD, 'tsmodel')
         srcs = [os.path.join(COQ, 'model', f) for f in os.listdir(os.path.join(COQ, 'model')) if f.endswith('.v')]
-        srcs += [os.path.join(COQ, 'extract', 'Extract.v'), os.path.join(VERIF, 'ocaml', 'driver.ml')]
+        srcs += [os.path.join(COQ, 'extract', 'Extract.v'), os.path.join(VERIF, 'ocaml', 'driver.ml'),
+                 os.path.join(COQ, 'gen', 'Tables.v')]
         newest = max(os.path.getmtime(s) for s in srcs)
         berr = None
         if not os.path.exists(binp) or os.path.getmtime(binp) < newest:
-            rc2, o2 = sh(['timeout', '600', 'coqc', '-Q', '../coq/model', 'TS', '../coq/extract/Extract.v'], cwd=BUILD)
+            rc2, o2 = sh(['timeout', '600', 'coqc', '-Q', '../coq/model', 'TS', '-Q', '../coq/gen', 'TS', '../coq/extract/Extract.v'], cwd=BUILD)
             if rc2 == 0:
                 sh(['cp', os.path.join(VERIF, 'ocaml', 'driver.ml'), BUILD])
                 rc2, o2 = sh(['timeout', '600', 'ocamlfind', 'ocamlopt', '-O2', '-w', '-a', 'tsmodel.mli',
@@ -69,13 +82,21 @@ def audit_props(pid):
     n_thm = len(re.findall(r'^(Theorem|Lemma|Corollary|Example)\s', src, re.M))
     closed = out.count('Closed under the global context')
     axioms = []
-    for blk in re.findall(r'Axioms:\n((?:.+\n?)+?)(?:\n|$)', out):
-        for line in blk.splitlines():
-            m = re.match(r'^(\S+)\s*:', line)
+    in_blk = False
+    for line in out.splitlines():
+        if line.startswith('Axioms:'):
+            in_blk = True
+            continue
+        if line.startswith('Closed under'):
+            in_blk = False
+            continue
+        if in_blk and line and not line[0].isspace():
+            m = re.match(r'^([A-Za-z_][\w.\']*)', line)      # an axiom name starts a line at column 0
             if m:
                 axioms.append(m.group(1))
     n_sections = closed + out.count('Axioms:')
-    return dict(ok=(rc == 0 and n_sections == n_print), theorems=n_thm, printed=n_print, closed=closed,
+    foreign = [a for a in set(axioms) if a not in STDLIB_AXIOMS]
+    return dict(ok=(rc == 0 and n_sections == n_print and not foreign), theorems=n_thm, printed=n_print, closed=closed,
                 axioms=sorted(set(axioms)), out=out[-3000:], rc=rc)
 
 
